@@ -145,6 +145,10 @@ func (P) Gen(rng *sim.Rng, tier string) *harness.Case {
 					}
 				case 2:
 					ops = append(ops, harness.Op{K: "fevent", N: uint64(rng.Range(1, 2))})
+				case 4:
+					// the file is made unreadable for a moment and readable again (a deployment tool fixing its modes):
+					// while it is unreadable no watch can be registered on it
+					ops = append(ops, harness.Op{K: "fchmod"})
 				case 3:
 					// the file is rotated the ordinary way, back to back: moved aside, written anew under its name, the
 					// copy that was moved aside removed
@@ -982,6 +986,31 @@ func (P) Exec(c *harness.Case) *harness.Outcome {
 				if moved && fsrc.dec && len(fsrc.content) > 0 && string(fsrc.content) != "null" {
 					fsrc.st.last, fsrc.st.has = append([]byte{}, fsrc.content...), true
 					w.apply(cfg.FileM, fsrc.list, fsrc.desc)
+				}
+			}
+		case "fchmod":
+			if fsrc == nil || fsrc.gone {
+				continue
+			}
+			for len(fsrc.pending) > 0 {
+				if !deliverEvent(step, 1) {
+					return o
+				}
+			}
+			if wt := simfsnotify.Last(); wt != nil && !wt.Closed() {
+				// chmod 000: announced as a change of attributes; inotify_add_watch on the file fails (EACCES) until
+				// chmod 644, which is announced the same way. The file is the same file throughout.
+				wt.AddErr = 1000
+				fsrc.pending = append(fsrc.pending, simfsnotify.Event{Name: fsrc.path, Op: simfsnotify.Chmod})
+				o.Fault("file_unreadable_for_a_moment")
+				ok := deliverEvent(step, 1)
+				wt.AddErr = 0
+				if !ok {
+					return o
+				}
+				fsrc.pending = append(fsrc.pending, simfsnotify.Event{Name: fsrc.path, Op: simfsnotify.Chmod})
+				if !deliverEvent(step, 1) {
+					return o
 				}
 			}
 		case "frotate":
